@@ -59,6 +59,9 @@ CHECKS = {
  'C07': ('cfgx+libx', 'explicit enumeration of all built files of all configurations for surviving directives; bounded-exhaustive enumeration of directive arguments (864 dbus combinations, 35 exec, 20 stack layouts) and of every shipped directive through the real directive.Run inside a prepared tree, against the documented shape / a line-based reference model, expansions parsed by the reference parser',
          'Part A enumerates the finite set of built files (all 180 trees in the thorough tier); parts B-D run every argument combination of a stated alphabet and every shipped use on the real code.',
          'independent tokenizer (engine/scan.py); exec_path values from the reference parser\'s own variable expansion', 'DESIGN.md §4 C07'),
+ 'C18': ('cfgx+scan', 'explicit enumeration of all 900 unordered pairs of configurations at Hamming distance 1 over the 180 build trees of the real prebuild; every differing Merkle entry and every differing line is classified against what the changed option governs',
+         'The pair space is finite and enumerated completely in the thorough tier; guarded regions come from the source through the C03 reference model, expected file sets from the C04 reference model.',
+         'independent tokenizer and reference models in engine/props/c03-c04; weaker readings listed in the evidence assumptions', 'DESIGN.md §4 C18'),
 }
 PENDING = {}
 def main():
